@@ -106,9 +106,14 @@ impl Serialize for SVal {
             }
             SVal::Map(items, known) => {
                 let mut q = s.serialize_map(if *known { Some(items.len()) } else { None })?;
-                for (k, v) in items {
-                    q.serialize_key(k)?;
-                    q.serialize_value(v)?;
+                // (both ways a Serialize impl may feed a map: key and value separately, or as one entry)
+                for (n, (k, v)) in items.iter().enumerate() {
+                    if (items.len() + n) % 2 == 0 {
+                        q.serialize_key(k)?;
+                        q.serialize_value(v)?;
+                    } else {
+                        q.serialize_entry(k, v)?;
+                    }
                 }
                 q.end()
             }
